@@ -289,7 +289,7 @@ func (w *repoWorld) apply(o repoOp) string {
 		case "doc":
 			delay := time.Duration(0)
 			if w.cfg.Fetch == "background" {
-				delay = 120 * time.Millisecond // the lookup of the spawning handshake must win against the background load
+				delay = 20 * time.Millisecond // (the spawning handshake's lookup is protected by Origin.Hold; a little slack for the awaited tick)
 			}
 			w.origin.Set(path, Behaviour{Kind: "bytes", Body: o.Doc.bytes(w.pki, w.pem), Delay: delay})
 			if w.docs[o.Loc] == nil {
@@ -303,7 +303,14 @@ func (w *repoWorld) apply(o repoOp) string {
 		cert, chains := w.chainFor(o.Issuer, o.Serial, o.CDP, o.Cands)
 		before := w.spawnBaseline(o.CDP)
 		hits := w.origin.TotalHits()
+		// background mode: the load which this handshake may spawn must not overtake the handshake's own lookup - its request
+		// is held at the origin until the lookup has answered (a fixed delay was not enough on a loaded machine)
+		release := func() {}
+		if w.cfg.Fetch == "background" && o.CDP != 0 {
+			release = w.origin.Hold(fmt.Sprintf("/loc%d", o.CDP))
+		}
 		st, err := chk.IsRevoked(cert, chains)
+		release()
 		status := "notRevoked"
 		if err != nil {
 			status = "error"
